@@ -240,6 +240,12 @@ func (BQTimestampCodec) Omit(ptr unsafe.Pointer) bool {
 }
 
 func (c BQTimestampCodec) Read(data []byte, ptr unsafe.Pointer, wt plenccore.WireType) (n int, err error) {
+	if len(data) == 0 {
+		// Nothing was written, which is how the zero time is encoded (see
+		// Omit). That is not the Unix epoch.
+		*(*time.Time)(ptr) = time.Time{}
+		return 0, nil
+	}
 	var ts int64
 	n, err = c.FlatIntCodec.Read(data, unsafe.Pointer(&ts), wt)
 	if err != nil {
